@@ -36,7 +36,7 @@ ASSUMPTIONS = [
 FLOORS = {"triples_compared": (6000, 100000), "fail_together": (1500, 30000), "succeed_together": (2000, 40000), "warm_triples": (2000, 40000),
           "partial_body_cases": (200, 4000), "validate_keys_body_checks": (6000, 100000),
           "datasetclass_triples": (1000, 20000), "datasetclass_fail_together": (150, 3000),
-          "pipeline_triples": (1000, 20000), "pipeline_fail_together": (100, 2000)}
+          "pipeline_triples": (1000, 20000), "pipeline_fail_together": (50, 1000)}
 SHARDS_QUICK = 4
 FEATURES = {"domains": False, "allopts": False}
 
